@@ -17,18 +17,28 @@ API = {"engage", "done", "next_state", "next_state_now", "execute", "on_enable",
 
 
 def universes(tier, base="StateMachine"):
-    """(name, [StateSpec]) - the machine shapes of DESIGN.md 7 (shared set-up)."""
+    """(name, [StateSpec], max_script, max_nest) - the machine shapes of DESIGN.md 7 (shared set-up).
+
+    quick:    first (must_finish or not), reg, mf, optional default; all timed with lazy next_state links;
+              in-state scripts of length <= 1 with next_state_now nesting <= 1.
+    thorough: the same shapes with timed and with untimed states and scripts of length <= 2 / nesting <= 2,
+              plus five-state universes (second regular and second must_finish state) with scripts of length 1.
+    """
     out = []
     for first_mf in (False, True):
-        for with_default in ((False, True) if base == "StateMachine" or tier == "thorough" else (False, True)):
+        for with_default in (False, True):
             for kind in (("timed",) if tier == "quick" else ("timed", "state")):
                 specs = [StateSpec("first", kind, first=True, must_finish=first_mf), StateSpec("reg", kind), StateSpec("mf", kind, must_finish=True)]
-                if tier == "thorough":
-                    specs += [StateSpec("reg2", kind), StateSpec("mf2", "timed", must_finish=True)]
                 if with_default:
                     specs.append(StateSpec("dflt", "default", params=("tm", "state_tm", "initial_call")))
                 name = f"{base}[{kind};first{'+mf' if first_mf else ''};{'default' if with_default else 'nodefault'}]"
-                out.append((name, specs))
+                out.append((name, specs, 1 if tier == "quick" else 2, 1))
+    if tier == "thorough":
+        for with_default in (False, True):
+            specs = [StateSpec("first", "timed", first=True), StateSpec("reg", "timed"), StateSpec("mf", "timed", must_finish=True), StateSpec("reg2", "state"), StateSpec("mf2", "timed", must_finish=True)]
+            if with_default:
+                specs.append(StateSpec("dflt", "default", params=("tm", "state_tm", "initial_call")))
+            out.append((f"{base}[five states;{'default' if with_default else 'nodefault'}]", specs, 1, 1))
     return out
 
 
@@ -538,9 +548,7 @@ class TimingMonitor:
 
 def run_closure(program, tier, base="StateMachine"):
     results = []
-    max_script = 1 if tier == "quick" else 2
-    max_nest = 1 if tier == "quick" else 2
-    for uname, specs in universes(tier, base)[: int(__import__("os").environ.get("VERIF_MAXU", "99"))]:
+    for uname, specs, max_script, max_nest in universes(tier, base)[: int(__import__("os").environ.get("VERIF_MAXU", "99"))]:
         world, it0 = make_world(program, specs, base, configure)
         mon = SMMonitor(specs, base)
         r = close(
